@@ -114,7 +114,9 @@ Run(r) ==
 
 Project(r, restored) ==
   [ph |-> r.ph, out |-> r.out, restored |-> restored,
-   body |-> IF r.ph = "body" THEN <<2, IF ND >= 1 THEN 1 ELSE 92>> ELSE <<0, 0>>,
+   \* inside the body: A = 2 from the scope itself; every disposable i yields B = i, so the one declared last wins
+   \* - whatever the order in which their __aenter__ finished
+   body |-> IF r.ph = "body" THEN <<2, IF ND >= 1 THEN (IF Bug = "completion_order_state" /\ ND >= 2 THEN 1 ELSE ND) ELSE 92>> ELSE <<0, 0>>,
    d |-> [i \in D |-> <<r.nen[i], r.nex[i], r.xarg[i]>>], ch |-> r.ch]
 
 Step(r) == /\ x' = Run(r) /\ cfg' = cfg
@@ -219,4 +221,6 @@ CancelAbortsMembers ==
   (x.ph = "post" /\ x.cancelled /\ ~x.lostC) => \A u \in Ch : x.ch[u] = "done" => u \in x.early
 (* C06: when cleanup itself fails the remaining spawned tasks are cancelled rather than awaited *)
 NoWaitAfterFailure == x.ph = "waiting" => (x.exc = "return" /\ ~x.dC /\ XFailed(x) = {})
+(* C08 / C01: state yielded by the disposables is visible in the body, later declared ones winning *)
+DisposableStateVisible == obs.ph = "body" => obs.body = <<2, IF ND >= 1 THEN ND ELSE 92>>
 =============================================================================
